@@ -6,14 +6,24 @@
       model, as it is of the code:
           .repeat 2 { .word 1 / .end / .word 2 }        gives   01 00 01 00
           .word 1 / .end / .word 2 / .word 1 / ...      gives   01 00
-   2. FIXED (commit 95bc3ec): before the fix the operand left in the instruction was the hoisted
-      tree, whose shape differs from the parsed operand; witness that hoisting changes the shape. *)
+   2. SENSITIVITY (both FIXED in /repo: commits 95bc3ec and 731b140): the two mechanisms as they
+      were before the fixes, as variants of the model, and the refutation of repeat_unroll for each:
+        old_hoist: RegisterModeOperandStub.encode rewrote the shared operand in place, so what
+                   stayed in insn.operands was the hoisted offset expression ('a+2(r0)' became
+                   'a+2'): the second copy of  .repeat 2 { mov a+2(r0), r1 }  is relative mode;
+        old_cache: resolve() returned expr.value whenever it was set, whatever the operands:
+                   .repeat 3 { .word ./2 }  emits the first copy's value three times.
+      With both flags off the variant model is the model of Model/TreeCache.v on the witnesses. *)
 From Coq Require Import ZArith List String Bool.
-From Verif Require Import Base.Res Model.TreeCache Proofs.TreeCacheP.
+From Verif Require Import Base.Res Base.Bytes Model.TreeCache Proofs.TreeCacheP.
+From Verif Require Gen.GenOperators Gen.GenGetAsInt.
 Import ListNotations.
 Open Scope string_scope.
+Open Scope list_scope.
 Open Scope Z_scope.
 
+(* ---------------------------------------------------------------------------------------------- *)
+(* 1. '.end' inside the body *)
 Definition repeat_unroll_full : Prop :=
   forall f env n body a,
     coh_block false body ->
@@ -35,7 +45,153 @@ Example end_in_body_images :
   /\ outcome_of (unrolled 1 (fun _ => None) 2 [w 1; IEnd; w 2] 512) = OOk [1; 0].
 Proof. split; vm_compute; reflexivity. Qed.
 
-(* what the pre-fix RegisterModeOperandStub.encode left in insn.operands: the hoisted tree *)
+(* ---------------------------------------------------------------------------------------------- *)
+(* 2. the pre-fix mechanisms *)
+Section Variant.
+  Variable old_cache : bool.     (* a set expr.value is returned without looking at the operands *)
+  Variable old_hoist : bool.     (* the operand left in the instruction is the hoisted offset expression *)
+
+  Definition use_cache_v (pure : bool) (c : cache) (args : list Z) (invoke : list Z -> res GenOperators.opres)
+    : res (Z * cache * list string) :=
+    if old_cache && negb pure then
+      match c with
+      | Some (_, v0) => Ok (v0, c, [])
+      | None => do vi <- invoke args; Ok (fst vi, Some (args, fst vi), snd vi)
+      end
+    else use_cache pure c args invoke.
+
+  Fixpoint eval_v (env : string -> option Z) (dot : Z) (t : tree) : evr :=
+    match t with
+    | Paren b e => do x <- eval_v env dot e; let '(v, e', d) := x in Ok (v, Paren b e', d)
+    | Infix op l r c =>
+        do x <- eval_v env dot l; let '(a, l', d1) := x in
+        do y <- eval_v env dot r; let '(b, r', d2) := y in
+        do z <- use_cache_v (is_pure GenOperators.KInfix op) c [a; b] (invoke_infix op);
+        let '(v, c', d3) := z in Ok (v, Infix op l' r' c', d1 ++ d2 ++ d3)
+    | Call l r c =>
+        do x <- eval_v env dot l; let '(a, l', d1) := x in
+        do y <- eval_v env dot r; let '(b, r', d2) := y in
+        do z <- use_cache_v (is_pure GenOperators.KInfix "$") c [a; b] (invoke_infix "$");
+        let '(v, c', d3) := z in Ok (v, Call l' r' c', d1 ++ d2 ++ d3)
+    | Prefix op e c =>
+        do x <- eval_v env dot e; let '(a, e', d1) := x in
+        do z <- use_cache_v (is_pure GenOperators.KPrefix op) c [a] (invoke_prefix op);
+        let '(v, c', d3) := z in Ok (v, Prefix op e' c', d1 ++ d3)
+    | Postfix op e c =>
+        do x <- eval_v env dot e; let '(a, e', d1) := x in
+        do z <- use_cache_v (is_pure GenOperators.KPostfix op) c [a] (invoke_postfix op);
+        let '(v, c', d3) := z in Ok (v, Postfix op e' c', d1 ++ d3)
+    | _ => eval env dot t
+    end.
+
+  Definition gai_v bits uns env dot t : evr :=
+    do x <- eval_v env dot t; let '(v, t', d) := x in
+    do w <- GenGetAsInt.get_as_int bits uns None v; Ok (w, t', d).
+
+  (* compile_rm with the choice of what is left in insn.operands *)
+  Definition compile_rm_v (env : string -> option Z) (dot rel : Z) (t : tree) : opr :=
+    if has_percent t then Crash "unmodelled:%register" else
+    let '(mode, kind, path, hoisted) := classify t in
+    let whole := match hoisted with Some off => off | None => t end in
+    let back s' := match hoisted with
+                   | Some off => if old_hoist then put path off s' else unhoist t (put path off s')
+                   | None => put path t s'
+                   end in
+    match kind with
+    | ENone => Ok (mode, [], t, [])
+    | EZero => Ok (mode, [0; 0], t, [])
+    | EGai =>
+        do x <- gai_v (Some 16) false env dot (get path whole); let '(w, s', d) := x in
+        Ok (mode, le16 w, back s', d)
+    | ERel =>
+        do x <- eval_v env dot (get path whole); let '(v, s', d) := x in
+        Ok (mode, le16 ((v - rel - 2) mod 65536), back s', d)
+    end.
+
+  (* the witness language: register / register-mode operands, .word; anything else is not needed *)
+  Fixpoint compile_ops_v env dot (enc_len : Z) (ops : list (slot * tree)) : res (Z * list Z * list (slot * tree) * list string) :=
+    match ops with
+    | [] => Ok (0, [], [], [])
+    | (s, t) :: rest =>
+        do x <- (match s with
+                 | SRm _ => compile_rm_v env dot (dot + 2 + enc_len) t
+                 | SReg _ => compile_reg t
+                 | _ => Crash "not in the witness language"
+                 end); let '(f, ext, t', d) := x in
+        do y <- compile_ops_v env dot (enc_len + Zlen ext) rest; let '(opc, exts, rest', d2) := y in
+        Ok ((f mod 2 ^ field_bits s) * 2 ^ field_shift s + opc, ext ++ exts, (s, t') :: rest', d ++ d2)
+    end.
+
+  Definition compile_item_v env (a : Z) (it : item) : res (list Z * item * list string) :=
+    match it with
+    | IWord [t] =>
+        do x <- gai_v (Some 16) false env a t; let '(w, t', d) := x in Ok (le16 w, IWord [t'], d)
+    | IInsn base ops =>
+        do x <- compile_ops_v env a 0 ops; let '(opc, exts, ops', d) := x in
+        Ok (le16 (base + opc) ++ exts, IInsn base ops', d)
+    | _ => Crash "not in the witness language"
+    end.
+
+  Fixpoint block_v env (its : list item) (a : Z) : result :=
+    match its with
+    | [] => Ok ([], [], [])
+    | it :: rest =>
+        do x <- compile_item_v env a it; let '(bs, it', d) := x in
+        do y <- block_v env rest (a + Zlen bs); let '(bs2, rest', d2) := y in
+        Ok (bs ++ bs2, it' :: rest', d ++ d2)
+    end.
+
+  (* the same threading ([loop]) and the same reference as in the model *)
+  Definition repeat_model_v env (n : nat) body a : result := loop (block_v env) n body a.
+  Definition unrolled_v env (n : nat) body a : result := block_v env (written_out n body) a.
+
+  Definition repeat_unroll_v : Prop :=
+    forall env n body a, has_end body = false -> coh_block false body ->
+      outcome_of (repeat_model_v env n body a) = outcome_of (unrolled_v env n body a).
+End Variant.
+
+Definition env_a (n : string) : option Z := if String.eqb n "a" then Some 8 else None.
+Definition num (v : Z) : tree := Num "n" v true false false.
+(* mov a+2(r0), r1 *)
+Definition mov_body : list item :=
+  [IInsn 4096 [(SRm 6, Infix "+" (Sym "a" false) (Call (num 2) (Sym "r0" false) None) None); (SRm 0, Sym "r1" false)]].
+(* .word ./2 *)
+Definition word_body : list item := [IWord [Infix "/" Dot (num 2) None]].
+
+Theorem repeat_unroll_old_hoist_refuted : ~ repeat_unroll_v false true.
+Proof.
+  intros H. specialize (H env_a 2%nat mov_body 512 eq_refl (coh_block_fresh false mov_body eq_refl)).
+  vm_compute in H. discriminate.
+Qed.
+Print Assumptions repeat_unroll_old_hoist_refuted.
+
+Theorem repeat_unroll_old_cache_refuted : ~ repeat_unroll_v true false.
+Proof.
+  intros H. specialize (H env_a 3%nat word_body 512 eq_refl (coh_block_fresh false word_body eq_refl)).
+  vm_compute in H. discriminate.
+Qed.
+Print Assumptions repeat_unroll_old_cache_refuted.
+
+(* what the two pre-fix variants emit, next to the written-out body *)
+Example old_hoist_images :
+  outcome_of (repeat_model_v false true env_a 2 mov_body 512) = OOk [1; 28; 10; 0;  193; 29; 2; 254]   (* 2nd copy: mode 67, pc-relative *)
+  /\ outcome_of (unrolled_v false true env_a 2 mov_body 512) = OOk [1; 28; 10; 0;  1; 28; 10; 0].
+Proof. split; vm_compute; reflexivity. Qed.
+
+Example old_cache_images :
+  outcome_of (repeat_model_v true false env_a 3 word_body 512) = OOk [0; 1; 0; 1; 0; 1]
+  /\ outcome_of (unrolled_v true false env_a 3 word_body 512) = OOk [0; 1; 1; 1; 2; 1].
+Proof. split; vm_compute; reflexivity. Qed.
+
+(* with both flags off the variant is the model on the witnesses, and the property holds there *)
+Example fixed_variant_is_the_model :
+  outcome_of (repeat_model_v false false env_a 2 mov_body 512) = outcome_of (repeat_model 1 env_a 2 mov_body 512)
+  /\ outcome_of (repeat_model_v false false env_a 3 word_body 512) = outcome_of (repeat_model 1 env_a 3 word_body 512)
+  /\ outcome_of (repeat_model_v false false env_a 2 mov_body 512) = outcome_of (unrolled_v false false env_a 2 mov_body 512)
+  /\ outcome_of (repeat_model_v false false env_a 3 word_body 512) = outcome_of (unrolled_v false false env_a 3 word_body 512).
+Proof. repeat split; vm_compute; reflexivity. Qed.
+
+(* hoisting changes the shape: what the pre-fix code left in the instruction differs from what was parsed *)
 Example prefix_hoist_changed_the_operand :
   let t := Infix "+" (Sym "a" false) (Call (Num "2" 2 true false false) (Sym "r0" false) None) None in
   strip (hoist t) <> strip t.
